@@ -56,4 +56,25 @@ def step (line : String) : String :=
     | _, _ => "bad-op"
   | _ => "bad-op"
 
+/-- the harness's advance callbacks (`hint_adv` in harness/h_seg.cpp), in sixteenths of a pixel; `none` = the sentinel value -/
+def hintAdv (kind : Nat) (gid : Nat) : Option Int :=
+  match kind with
+  | 0 => some (96 + (gid % 16 : Nat))
+  | 1 => if gid % 3 = 0 then some (-16) else some (112 + 2 * (gid % 8 : Nat))
+  | 2 => if gid % 5 = 0 then none else some 88
+  | _ => some (640004 + 16 * (gid : Nat))
+
+/-- `adv <kind> <numGlyphs> <gid,gid,...>`: a history of `Font::advance` requests on a fresh hinted font -/
+def stepAdv (line : String) : String :=
+  match words line with
+  | ["adv", k, n, gs] =>
+    match k.toNat?, n.toNat?, (gs.splitOn ",").mapM (·.toNat?) with
+    | some k, some n, some gs =>
+      let r := (advRun none (hintAdv k) (advInit none n) gs).1
+      String.intercalate " " (r.map fun x => match x with
+        | none => "oob"
+        | some (v, called) => (match v with | none => "S" | some i => toString i) ++ (if called then "*" else ""))
+    | _, _, _ => "bad-op"
+  | _ => "bad-op"
+
 end Driver.Borrow
